@@ -34,8 +34,10 @@ Each derivation fails closed: an unexpected shape of the anchor yields a body ca
                    (file_type == 'hdf5', file_type == 'pkl', overwrite)
   save_default_{rdms,dataset,result}
                    default `file_type` of `save` (2 hdf5, 4 pkl) plus the default of `overwrite`
-  guard            io/hdf5.py `write_dict_hdf5`: 1 = refuse (`raise ValueError`) exactly when the
-                   target is a str path that exists, as a function of (is_str, exists)
+  guard            io/hdf5.py `write_dict_hdf5`: 1 = refuse (`raise ValueError`), as a function of
+                   (is_str, is_other_path [bytes / os.PathLike], exists): the isinstance test must be
+                   `str` (then other paths pass: the theorem guard_table fails) or
+                   `(str, bytes, os.PathLike)`; the file must be opened `File(fhandle, 'a')`
 """
 import ast
 import os
@@ -326,9 +328,24 @@ def _save_default(path, cls):
 def _guard():
     fn = _func('io/hdf5.py', 'write_dict_hdf5')
     body = _strip_doc(fn.body)
-    if not (isinstance(body[0], ast.If) and ast.unparse(body[0].test) == 'isinstance(fhandle, str)'
-            and not body[0].orelse and len(body[0].body) == 1 and isinstance(body[0].body[0], ast.If)):
+    if not (isinstance(body[0], ast.If) and not body[0].orelse and len(body[0].body) == 1
+            and isinstance(body[0].body[0], ast.If)):
         raise Underivable('write_dict_hdf5: guard block changed')
+    # which kinds of target count as a path: `isinstance(fhandle, str)` (str only) or
+    # `isinstance(fhandle, (str, bytes, os.PathLike))` (every path-like target); anything else
+    # is not understood (fail closed)
+    test = body[0].test
+    if not (isinstance(test, ast.Call) and ast.unparse(test.func) == 'isinstance' and len(test.args) == 2
+            and not test.keywords and ast.unparse(test.args[0]) == 'fhandle'):
+        raise Underivable('write_dict_hdf5: guard is not an isinstance test of fhandle')
+    ty = test.args[1]
+    types = {ast.unparse(e) for e in ty.elts} if isinstance(ty, ast.Tuple) else {ast.unparse(ty)}
+    if types == {'str'}:
+        other = False
+    elif types == {'str', 'bytes', 'os.PathLike'}:
+        other = True
+    else:
+        raise Underivable(f'write_dict_hdf5: guard covers {sorted(types)}')
     inner = body[0].body[0]
     if ast.unparse(inner.test) != 'os.path.exists(fhandle)' or inner.orelse \
             or not (len(inner.body) == 1 and isinstance(inner.body[0], ast.Raise)
@@ -337,7 +354,10 @@ def _guard():
     rest = ' ; '.join(ast.unparse(b) for b in body[1:])
     if "File(fhandle, 'a')" not in rest or '_write_to_group(file, dictionary)' not in rest:
         raise Underivable('write_dict_hdf5: open / write changed')
-    return ['    if is_str > 0:', '        if path_exists > 0:', '            return 1', '    return 0']
+    lines = ['    if is_str > 0:', '        if path_exists > 0:', '            return 1']
+    if other:
+        lines += ['    if is_other_path > 0:', '        if path_exists > 0:', '            return 1']
+    return lines + ['    return 0']
 
 
 # ----------------------------------------------------------------------------- emit
@@ -367,7 +387,7 @@ def _derive():
     emit('save_default_rdms', [], lambda: _save_default('rdm/rdms.py', 'RDMs'))
     emit('save_default_dataset', [], lambda: _save_default('data/base.py', 'DatasetBase'))
     emit('save_default_result', [], lambda: _save_default('inference/result.py', 'Result'))
-    emit('guard', ['is_str', 'path_exists'], _guard)
+    emit('guard', ['is_str', 'is_other_path', 'path_exists'], _guard)
 
     text = '\n'.join(out)
     if not (os.path.exists(DERIVED) and open(DERIVED).read() == text):
@@ -415,6 +435,6 @@ LEAVES = [
          ret='Nat'),
     dict(name='saveDefaultResult', file=DERIVED, func='save_default_result', kind='func', params={},
          ret='Nat'),
-    dict(name='guard', file=DERIVED, func='guard', kind='func', params=_nat(['is_str', 'path_exists']),
+    dict(name='guard', file=DERIVED, func='guard', kind='func', params=_nat(['is_str', 'is_other_path', 'path_exists']),
          ret='Nat'),
 ]
